@@ -265,6 +265,14 @@ JudgeC04(e) ==
         IN IF ideal.v = "OK" THEN ideal
            ELSE IF asisSame THEN Known("advance_by_decoded_size", ideal.why)
            ELSE ideal
+    [] e.ev = "padded" ->
+        \* the same bytes with one more unknown field (index 200, a byte array of e.k bytes) in the evolved message: what a
+        \* still newer peer would send. Same value as without it (e.tail_ok), all e.n bytes consumed, nothing else.
+        LET what == "the evolved message also carries an unknown field of " \o ToString(e.k) \o " bytes (" \o e.style \o "): " IN
+        FirstBad(<<
+          <<e.res = "nil", what \o e.api \o " returned " \o e.res>>,
+          <<e.res # "nil" \/ e.consumed = e.n, what \o e.api \o " consumed a number of bytes different from the record's length">>,
+          <<e.res # "nil" \/ e.tail_ok, what \o e.api \o " does not yield the value it yields without that field">> >>)
     [] OTHER -> NAv
 
 \* C12: whatever the generator accepts compiles
